@@ -6,7 +6,7 @@ program sets, plus adversarial and random ones for larger sets) rather than left
 traces emitted by the real TracesParser are recorded per thread at the feed boundary and compared with the
 baseline obtained by running each program alone; learned process names are compared with the union of baselines.
 """
-from vlib import core, ev, histories as H
+from vlib import core, ev, domain, histories as H
 
 LEVEL = 'exploration'
 RULE = ('program sets = 2-4 per-thread programs (<= 8 events each) built from kernel-shaped templates with disjoint keys '
@@ -226,6 +226,48 @@ def check_set(res, ctx, rng, programs, tids, n_random=None):
     res.count('per_thread_comparisons', n_sched * len(tids))
 
 
+def census(res, ctx, rng):
+    """Every code of the bundled table, once, as a record of ANOTHER thread placed inside a thread's open call and between
+    the two records of its new-thread pair: whatever that record is (decoded, known but undecoded, a kernel marker such
+    as 'events were lost'), the thread's own traces and the name learned from its own pair stay what they are without
+    it."""
+    table = ev.bundled_codes()
+    decodable = set(H.inventory()['decodable'])
+    a_prog = H.path_syscall(rng, 'BSC_open', 1, error=0, interleave_unrelated=False) + H.newthread_pair(0x111999, 77, b'child')
+    base, base_names, exc = run_stream(H.on_thread(0x111, a_prog))
+    if exc is not None or not base.get(0x111) or base_names.get(77) != 'child':
+        res.inconclusive.append(f'census baseline unusable: {exc!r} {base_names}')
+        return
+    for i, cid in enumerate(sorted(table)):
+        if not ctx.mine(i):
+            continue
+        name = table[cid]
+        if name in domain.TEXT_PAYLOAD:
+            payload = domain.text32(rng)
+        elif name in decodable:
+            payload = domain.gen_single(rng, name)
+        else:
+            payload = [domain.rng_word(rng) for _ in range(4)]
+        q = (H.NONE, H.NONE, H.ALL, H.START, H.END)[i % 5]
+        for pos, where in ((1, 'inside its open call'), (len(a_prog) - 1, 'between the two records of its new-thread pair')):
+            items = H.on_thread(0x111, a_prog[:pos]) + [(0x222, H.A(cid, q, payload))] + H.on_thread(0x111, a_prog[pos:])
+            per, names, exc = run_stream(items)
+            res.count('census_schedules')
+            case = {'programs': programs_case([a_prog, [H.A(cid, q, payload)]], [0x111, 0x222]), 'position': pos}
+            if exc is not None:
+                res.violation(f'c05-raises-{core.exc_name(exc)}', f'a {name} record ({hex(cid)}) of another thread {where}: '
+                              f'{exc!r}', case)
+                return
+            if per.get(0x111, []) != base[0x111] or names.get(77) != 'child':
+                res.violation('c05-per-thread-traces' if per.get(0x111, []) != base[0x111] else 'c05-learned-names',
+                              f'a {name} record ({hex(cid)}) of another thread {where} changes the thread\'s results: '
+                              f'{len(per.get(0x111, []))} traces (alone: {len(base[0x111])}), name learned for its child\'s '
+                              f'process {names.get(77)!r} (alone: \'child\')', case)
+                return
+        res.case(('census', cid))
+    res.count('census_codes_done')
+
+
 def programs_case(programs, tids):
     return [{'tid': tid, 'events': [[c, q, (p if isinstance(p, bytes) else list(p))] for c, q, p in prog]}
             for prog, tid in zip(programs, tids)]
@@ -237,6 +279,7 @@ def run(ctx):
     for i in range(ctx.pick(24, 2000)):
         programs, tids = gen_programs(rng, pairs_everywhere=(i % 2 == 0))
         check_set(res, ctx, rng, programs, tids)
+    census(res, ctx, rng)
     # many threads at once (tables that are capped, flushed in batches or keyed by a hash show only then)
     for _ in range(ctx.pick(3, 40)):
         n = rng.choice((17, 18, 33, 40, 70))
@@ -287,6 +330,7 @@ def run(ctx):
     res.require('program_sets_exhaustively_scheduled', 1)
     res.require('many_thread_sets', 1)
     res.require('schedules_through_a_dump', 20)
+    res.require('census_schedules', 6000)
     return res
 
 
